@@ -87,7 +87,7 @@ where
 {
     let chans = F::CHANNELS;
     let amp = if F::IS_FLOAT { 1.0 } else { 0.12 };
-    let steps = src.cfg("steps", 1, 300, |r| r.range(1, 300)) as usize;
+    let steps = src.cfg("steps", 1, 3000, |r| if r.chance(1, 40) { r.range(600, 3000) } else { r.range(1, 300) }) as usize;
     let alpha = [0.5, -0.25, 2.0, 1.0, -1.0, 0.125][src.cfg("alpha", 0, 5, |r| r.range(0, 5)) as usize];
     let beta = [0.5, 0.75, -3.0, 1.0, 0.0, -0.5][src.cfg("beta", 0, 5, |r| r.range(0, 5)) as usize];
     let cval = val(src.cfg("const", 0, 256, |r| r.range(0, 256)), 0, amp);
@@ -280,8 +280,8 @@ where
     F::Sample: Duplex<f64>,
 {
     let chans = F::CHANNELS;
-    let len = src.cfg("src_len", 0, 120, |r| r.range(0, 120)) as u64;
-    let steps = src.cfg("steps", 1, 300, |r| r.range(1, 300)) as u64;
+    let len = src.cfg("src_len", 0, 3000, |r| if r.chance(1, 30) { r.range(300, 3000) } else { r.range(0, 120) }) as u64;
+    let steps = src.cfg("steps", 1, 3000, |r| if r.chance(1, 40) { r.range(600, 3000) } else { r.range(1, 300) }) as u64;
     let ratio_k = src.cfg("ratio_num", 1, 64, |r| if r.chance(2, 3) { 8 } else { r.range(1, 64) });
     let ratio = ratio_k as f64 / 8.0; // dyadic: the accumulator arithmetic is exact
     let id = 2 + 16 * if F::IS_FLOAT { 1 } else { 3 };
@@ -350,14 +350,15 @@ where
     if !F::IS_FLOAT {
         obs.probe(P_INTEGER_FORMAT);
     }
-    let depth = src.cfg("depth", 1, 32, |r| match r.below(6) {
-        0 => 1,
-        1 => 2,
-        2 => 32,
-        3 => r.range(1, 32),
+    let depth = src.cfg("depth", 1, 70, |r| match r.below(12) {
+        0 | 1 => 1,
+        2 | 3 => 2,
+        4 => 32,
+        5 | 6 => r.range(1, 32),
+        7 => *r.pick(&[16i64, 17, 31, 33, 63, 64, 65]),
         _ => r.range(1, 8),
     }) as usize;
-    let first = src.cfg("rb_first", 0, 63, |r| if r.bool() { 0 } else { r.range(0, 63) }) as usize % (2 * depth);
+    let first = src.cfg("rb_first", 0, 139, |r| if r.bool() { 0 } else { r.range(0, 139) }) as usize % (2 * depth);
     let mode = src.cfg("mode", 0, 1, |r| r.chance(1, 3) as i64);
     if depth == 1 {
         obs.probe(P_DEPTH1);
@@ -427,7 +428,7 @@ impl Scenario for SincScenario {
     }
     fn runs(&self, tier: &str) -> u64 {
         if tier == "quick" {
-            60_000
+            150_000
         } else {
             4_000_000
         }
